@@ -555,7 +555,7 @@ func writeEvidence(prop, tier string, seed int, outcomes []*HarnessOutcome, cfg 
 			Complete: oc.Complete, Steps: h.Stats.Steps, AssertIDs: sortedKeysInt(h.AssertIDs)})
 	}
 	if len(samples) == 0 {
-		samples = append(samples, "no path completed")
+		samples = append(samples, "no obligation needed a solver query of its own: on every explored path the asserted condition folded to a constant (the solver decided path feasibility at the forks)")
 	}
 	if transitions == 0 {
 		transitions = states
